@@ -34,7 +34,7 @@ Definition modk_eqb (a b : modk) : bool :=
   | MRepeatWithInverse, MRepeatWithInverse | MRepeatCountConv, MRepeatCountConv | MHandleSig, MHandleSig => true
   | MOnSub x, MOnSub y | MBySub x, MBySub y | MWithSub x, MWithSub y | MOffSub x, MOffSub y
   | MDipN x, MDipN y | MReduceDepth x, MReduceDepth y => Nat.eqb x y
-  | MBothImpl r n, MBothImpl r' n' => Nat.eqb r r' && Nat.eqb n n'
+  | MBothImpl r n, MBothImpl r' n' | MUnBothImpl r n, MUnBothImpl r' n' => Nat.eqb r r' && Nat.eqb n n'
   | MOther i f, MOther i' f' => N.eqb i i' && osig_eqb f f'
   | _, _ => false
   end.
